@@ -547,7 +547,7 @@ Qed.
 
 (** ---- consequences, in the words of the property ---- *)
 Section RaceFacts.
-  Variables (inputs : list (cbeh * option outcome)) (ops : list op).
+  Variables (inputs : list input) (ops : list op).
   Hypothesis Hne : inputs <> [].
   Let s := run KRace inputs ops.
   Let n := length inputs.
